@@ -40,6 +40,21 @@ Definition schema_roots_ok (S : schema) : bool :=
 
 Definition schema_ok (S : schema) : bool := schema_no_typename S && schema_input_closed S && schema_roots_ok S.
 
+(** argument definitions (of fields, of the introspection meta fields, of directives): names are
+    distinct (they are the keys of a Go map) and types are input types (schema.New checks this) *)
+Definition args_ok (S : schema) (args : list (name * input_def)) : bool :=
+  nodupb (map fst args) && forallb (fun nd => input_styb S (in_type (snd nd))) args.
+Definition fields_args_ok (S : schema) (fs : list (name * field_def)) : bool :=
+  forallb (fun nf => args_ok S (f_args (snd nf))) fs.
+Definition schema_args_ok (S : schema) : bool :=
+  forallb (fun nt => match t_body (snd nt) with
+                     | TObject fs _ => fields_args_ok S fs
+                     | TInterface fs => fields_args_ok S fs
+                     | _ => true
+                     end) (s_types S)
+  && fields_args_ok S (s_meta S)
+  && forallb (fun nd => args_ok S (dd_args (snd nd))) (s_directives S).
+
 (** every field selection of the document has a definition (5.3.1 holds and every selection set has
     a known parent type) *)
 Definition fields_defined (S : schema) (F : features) (D : document) : bool :=
